@@ -35,10 +35,10 @@ theorem setItems_append (env : Env) (a b : List (Key × Tree)) : ∀ (cfg : Dict
 
 theorem updateP_get_frame (env : Env) (prio : Priority) (new : List (Key × Tree)) (old : Dict)
     (defs : Option Tree) (k : Key) (rest : List Key) (h : ∀ kv ∈ new, Unrelated kv.1 k) :
-    Config.get (updateP env prio old defs new).1 (k :: rest) = Config.get old (k :: rest) := by
+    Config.get (updateP env prio false old defs new).1 (k :: rest) = Config.get old (k :: rest) := by
   apply get_congr_head
-  · exact update_frame env prio k new old defs (fun kv hkv => ⟨(h kv hkv).1, (h kv hkv).2.2.1⟩)
-  · exact update_frame env prio (altKey k) new old defs
+  · exact update_frame env prio k new false old defs (fun kv hkv => ⟨(h kv hkv).1, (h kv hkv).2.2.1⟩)
+  · exact update_frame env prio (altKey k) new false old defs
       (fun kv hkv => ⟨(h kv hkv).2.1, (h kv hkv).2.2.2⟩)
 
 theorem updateDefaultsP_get_frame (env : Env) (s : State) (new : Dict) (k : Key) (rest : List Key)
